@@ -104,7 +104,7 @@ func (r *Report) undecided(rule, fn, construct, pos, msg string) {
 
 func (r *Report) check(cond bool, rule, fn, construct, pos, okHow, failMsg string) bool {
 	if cond {
-		r.ok(rule, fn+": "+construct, pos, okHow, true)
+		r.ok(rule, fn+": "+okHow, pos, "checked against: "+construct, true)
 	} else {
 		r.fail(rule, fn, construct, pos, failMsg)
 	}
